@@ -28,20 +28,25 @@ type viol struct {
 }
 
 type runRes struct {
-	answers []string
-	qs      []string
-	content string
-	root    string
-	panic   string
+	answers       []string
+	qs            []string
+	content       string
+	root          string
+	panic         string
+	panicAtRevert bool
+	dirty         map[string]bool   // dirty set right before the final root
+	empty         map[string]string // Empty(addr) right before the final root
+	exist         map[string]string
 }
 
-func runOnce(header, prefix, region, suffix []string, withRegion, withQueries bool, qs []string) runRes {
+func runOnce(header, prefix, region, suffix []string, withRegion, withQueries bool, qs []string, addrs []string) runRes {
 	w := NewWorld()
 	var res runRes
 	ex := func(l string) string {
 		r := hx.Guard(func() string { return w.Exec(l) })
 		if strings.HasPrefix(r, "PANIC") && res.panic == "" {
 			res.panic = l + " => " + r
+			res.panicAtRevert = strings.HasPrefix(l, "revert ")
 		}
 		return r
 	}
@@ -88,6 +93,20 @@ func runOnce(header, prefix, region, suffix []string, withRegion, withQueries bo
 	for _, l := range suffix {
 		ex(l)
 	}
+	res.dirty, res.empty, res.exist = map[string]bool{}, map[string]string{}, map[string]string{}
+	for _, a := range addrs {
+		res.exist[a] = ex("exist " + a)
+		res.empty[a] = ex("empty " + a)
+	}
+	in := ex("internals")
+	if i := strings.Index(in, " D["); i >= 0 {
+		rest := in[i+3:]
+		if j := strings.IndexByte(rest, ']'); j >= 0 && j > 0 {
+			for _, a := range strings.Split(rest[:j], ",") {
+				res.dirty[a] = true
+			}
+		}
+	}
 	res.content = ex("root 1")
 	res.root = w.LastRoot
 	return res
@@ -117,28 +136,34 @@ func mentions(lines []string, kindPrefix, addr string) bool {
 	return false
 }
 
-func classifyRoot(a, b string, prefix, region []string) (string, string) {
-	ma, mb := parseContent(a), parseContent(b)
+func zeroTouch(region []string, addr string) bool {
+	for _, l := range region {
+		f := strings.Fields(l)
+		if len(f) == 4 && f[0] == "addft" && f[1] == addr && f[3] == "0" {
+			return true
+		}
+	}
+	return false
+}
+
+func classifyRoot(A, B runRes, prefix, region []string) (string, string) {
+	ma, mb := parseContent(A.content), parseContent(B.content)
 	for addr, la := range ma {
 		lb, ok := mb[addr]
 		if !ok {
-			if la == "0"+emptyLeafSuffix {
-				return "revert-keeps-empty-account", "account " + addr + " is an empty leaf in the trie after the reverted region, absent without it"
+			if B.dirty[addr] && A.exist[addr] == "true" && B.exist[addr] == "true" && A.empty[addr] == "false" && B.empty[addr] == "true" && !zeroTouch(region, addr) {
+				return "empty-looks-at-storage-cache", "account " + addr + " is empty() without the region but not after the reverted region (storageChange.undo and reads leave keys in cachedStorage, which empty() counts): kept as " + la + " instead of being deleted by IntermediateRoot(true)"
+			}
+			if zeroTouch(region, addr) && !A.dirty[addr] && B.dirty[addr] {
+				return "touch-undo-disarms-ondirty", "account " + addr + ": touchChange.undo removed the dirty mark but onDirty stays nil, so a later touch/write never marks it dirty again and IntermediateRoot(true) ignores it: kept as " + la
 			}
 			return "extra-account-after-revert", "account " + addr + " = " + la + " only exists after the reverted region"
 		}
 		if la != lb {
-			zeroTouch := false
-			for _, l := range region {
-				f := strings.Fields(l)
-				if len(f) == 4 && f[0] == "addft" && f[1] == addr && f[3] == "0" {
-					zeroTouch = true
-				}
+			if zeroTouch(region, addr) && !A.dirty[addr] && B.dirty[addr] {
+				return "touch-undo-disarms-ondirty", "account " + addr + ": touchChange.undo removed the dirty mark but onDirty stays nil, a later write is never flushed: " + la + " vs " + lb
 			}
-			if zeroTouch {
-				return "lost-write-after-touch-revert", "account " + addr + ": a write made after the revert of a zero-amount AddFT (touch) is not flushed: " + la + " vs " + lb
-			}
-			if mentions(prefix, "committed ", addr) || mentions(region, "committed ", addr) {
+			if A.dirty[addr] && B.dirty[addr] && (mentions(prefix, "committed ", addr) || mentions(region, "committed ", addr)) {
 				return "committed-read-clobbers-cache", "account " + addr + ": GetCommittedState overwrote a cached dirty slot; the journal then records the stale value: " + la + " vs " + lb
 			}
 			return "leaf-differs-after-revert", "account " + addr + ": " + la + " vs " + lb
@@ -146,19 +171,20 @@ func classifyRoot(a, b string, prefix, region []string) (string, string) {
 	}
 	for addr, lb := range mb {
 		if _, ok := ma[addr]; !ok {
-			if strings.HasPrefix(lb, "0"+emptyLeafSuffix[:len(emptyLeafSuffix)-1]) {
-				return "revert-deletes-storage-only-account", "account " + addr + " = " + lb + " (nonce 0, no code, only storage) is deleted by IntermediateRoot(true) after a reverted region touched it"
+			if A.dirty[addr] && !B.dirty[addr] && A.empty[addr] == "true" && A.exist[addr] == "true" {
+				return "revert-leaves-dirty-mark", "account " + addr + " = " + lb + " (nonce 0, no code, only storage: empty() by this code's definition) stays in the dirty set after the reverted region and is deleted by IntermediateRoot(true)"
 			}
 			return "missing-account-after-revert", "account " + addr + " = " + lb + " is missing after the reverted region"
 		}
 	}
-	return "root-differs", "contents differ: " + a + " vs " + b
+	return "root-differs", "contents differ: " + A.content + " vs " + B.content
 }
 
 func search(args map[string]string) {
 	r := hx.NewRng(hx.SeedFromEnv() ^ 0xc04c04)
 	n := hx.ArgInt(args, "n", 300)
 	evals := 0
+	regionPanics := 0
 	distinct := map[string]bool{}
 	found := map[string]int{}
 	kinds := map[string]int{}
@@ -171,60 +197,97 @@ func search(args map[string]string) {
 		b, _ := json.Marshal(v)
 		fmt.Println("VIOL " + string(b))
 	}
-	for i := 0; i < n; i++ {
-		u := NewUniv(r.Fork())
+	type witness struct {
+		prefix, region, suffix []string
+		q                      bool
+	}
+	var directed []witness
+	{
+		u0 := NewUniv(hx.NewRng(7))
+		a1 := hx.Hex(u0.addrs[2][:])
+		k32 := "0000000000000000000000000000000000000000000000000000000000000001"
+		v := func(b byte) string { return strings.Repeat("00", 31) + fmt.Sprintf("%02x", b) }
+		directed = []witness{
+			{[]string{"create " + a1}, []string{"setdata " + a1 + " 6b 01"}, nil, false},
+			{[]string{"create " + a1}, []string{"setdata " + a1 + " 6b 01"}, nil, true},
+			{[]string{"setdata " + a1 + " 6b 07", "commit 1", "reopen"}, []string{"setnonce " + a1 + " 5"}, nil, false},
+			{[]string{"setdata " + a1 + " 6b 07", "commit 1", "reopen"}, []string{"addft " + a1 + " 663a78 0"}, []string{"setnonce " + a1 + " 5"}, false},
+			{[]string{"setstate " + a1 + " " + k32 + " " + v(1), "commit 1", "reopen", "setstate " + a1 + " " + k32 + " " + v(2), "committed " + a1 + " " + k32},
+				[]string{"setstate " + a1 + " " + k32 + " " + v(3)}, nil, false},
+		}
+	}
+	for i := -len(directed); i < n; i++ {
+		var u *Univ
+		if i < 0 {
+			u = NewUniv(hx.NewRng(7))
+		} else {
+			u = NewUniv(r.Fork())
+		}
 		g := &G{r: r.Fork(), u: u}
 		header := u.Header(true)
 		var prefix, region, suffix []string
-		if !g.r.Chance(1, 4) {
-			np := g.r.Intn(14)
-			for j := 0; j < np; j++ {
-				prefix = append(prefix, g.Mutator())
-			}
-			if g.r.Chance(1, 4) {
-				prefix = append(prefix, g.Query())
-			}
-			if g.r.Chance(2, 3) {
-				prefix = append(prefix, "commit 1", "reopen")
-			} else if g.r.Chance(1, 3) {
-				prefix = append(prefix, "root 1")
-			}
-			np = g.r.Intn(4)
-			for j := 0; j < np; j++ {
-				if g.r.Chance(1, 3) {
-					prefix = append(prefix, g.Query())
-				} else {
+		withQ := g.r.Bool()
+		if i < 0 {
+			w := directed[i+len(directed)]
+			prefix, region, suffix, withQ = w.prefix, w.region, w.suffix, w.q
+		} else {
+			if !g.r.Chance(1, 4) {
+				np := g.r.Intn(14)
+				for j := 0; j < np; j++ {
 					prefix = append(prefix, g.Mutator())
 				}
+				if g.r.Chance(1, 4) {
+					prefix = append(prefix, g.Query())
+				}
+				if g.r.Chance(2, 3) {
+					prefix = append(prefix, "commit 1", "reopen")
+				} else if g.r.Chance(1, 3) {
+					prefix = append(prefix, "root 1")
+				}
+				np = g.r.Intn(4)
+				for j := 0; j < np; j++ {
+					if g.r.Chance(1, 3) {
+						prefix = append(prefix, g.Query())
+					} else {
+						prefix = append(prefix, g.Mutator())
+					}
+				}
+			}
+			nr := 1 + g.r.Intn(10)
+			if g.r.Chance(1, 3) {
+				nr = 1 + g.r.Intn(2) // small regions give minimal witnesses
+			}
+			nsnap := 0
+			var valid []int // region snapshots that can still be reverted to
+			for j := 0; j < nr; j++ {
+				x := g.r.Intn(10)
+				switch {
+				case x == 0:
+					region = append(region, "snapshot")
+					valid = append(valid, nsnap)
+					nsnap++
+				case x == 1 && len(valid) > 0:
+					k := g.r.Intn(len(valid))
+					region = append(region, fmt.Sprintf("revert @%d", valid[k]))
+					valid = valid[:k]
+				case x == 2:
+					region = append(region, g.Query())
+				default:
+					region = append(region, g.Mutator())
+				}
+			}
+			ns := g.r.Intn(3)
+			for j := 0; j < ns; j++ {
+				suffix = append(suffix, g.Mutator())
 			}
 		}
-		nr := 1 + g.r.Intn(10)
-		if g.r.Chance(1, 3) {
-			nr = 1 + g.r.Intn(2) // small regions give minimal witnesses
-		}
-		nsnap := 0
-		for j := 0; j < nr; j++ {
-			x := g.r.Intn(10)
-			switch {
-			case x == 0:
-				region = append(region, "snapshot")
-				nsnap++
-			case x == 1 && nsnap > 0:
-				region = append(region, fmt.Sprintf("revert @%d", g.r.Intn(nsnap)))
-			case x == 2:
-				region = append(region, g.Query())
-			default:
-				region = append(region, g.Mutator())
-			}
-		}
-		ns := g.r.Intn(3)
-		for j := 0; j < ns; j++ {
-			suffix = append(suffix, g.Mutator())
-		}
-		withQ := g.r.Bool()
 		qs := g.AllQueries()
-		A := runOnce(header, prefix, region, suffix, true, withQ, qs)
-		B := runOnce(header, prefix, region, suffix, false, withQ, qs)
+		var addrs []string
+		for _, a := range u.addrs {
+			addrs = append(addrs, hx.Hex(a[:]))
+		}
+		A := runOnce(header, prefix, region, suffix, true, withQ, qs, addrs)
+		B := runOnce(header, prefix, region, suffix, false, withQ, qs, addrs)
 		evals++
 		distinct[strings.Join(prefix, ";")+"|"+strings.Join(region, ";")+"|"+strings.Join(suffix, ";")] = true
 		for _, l := range region {
@@ -236,6 +299,10 @@ func search(args map[string]string) {
 		base := viol{Prefix: prefix, Region: region, Suffix: suffix, Query: withQ}
 		if B.panic != "" {
 			continue // the reference run itself panics (e.g. deleted token contract): not a revert question
+		}
+		if A.panic != "" && !A.panicAtRevert {
+			regionPanics++
+			continue // a region op itself panicked (e.g. SubRefund below zero): no revert was attempted
 		}
 		if A.panic != "" {
 			base.Key, base.Desc, base.A, base.B = "panic-in-reverted-run", "the run with the reverted region panics, the run without does not", A.panic, "no panic"
@@ -270,12 +337,12 @@ func search(args map[string]string) {
 			emit(v)
 		} else if A.content != B.content {
 			v := base
-			v.Key, v.Desc = classifyRoot(A.content, B.content, prefix, region)
+			v.Key, v.Desc = classifyRoot(A, B, prefix, region)
 			v.A, v.B = A.content, B.content
 			emit(v)
 		}
 	}
-	st := map[string]interface{}{"evaluations": evals, "distinct": len(distinct), "found": found, "region_kinds": kinds, "samples": samples}
+	st := map[string]interface{}{"evaluations": evals, "distinct": len(distinct), "found": found, "region_kinds": kinds, "region_panics": regionPanics, "samples": samples}
 	b, _ := json.Marshal(st)
 	fmt.Println("STATS " + string(b))
 }
